@@ -18,6 +18,9 @@ RULE = ("one run per case under the virtual clock: builder, records of lengths 0
         "distinct = distinct case text")
 
 
+VIA_LOGGER = 0.25   # share of the file-writer histories that is run once more through Logger / LoggerHandle
+
+
 def corpus():
     out = []
     for naming in g.NAMINGS:
